@@ -5,7 +5,7 @@
    Determined         no value of a not fully inferred type is bound / matched / dereferenced
    WfDecls            declared types are ground (true of every source text) *)
 From Coq Require Import ZArith List Bool.
-From Verif Require Import C03.Model C03.ProofsBase C03.ProofsExpr C03.ProofsStmt C03.ProofsProg C03.Witness.
+From Verif Require Import C03.Model C03.ProofsBase C03.ProofsExpr C03.ProofsStmt C03.ProofsProg C03.ProofsMatch C03.ProofsWithin C03.Witness.
 Import ListNotations.
 Open Scope N_scope.
 
@@ -43,22 +43,70 @@ Theorem C03_context_propagation : forall fx G R S b S' s',
 Proof. intros fx G R. exact (proj1 (reach_incl_all fx G R)). Qed.
 Print Assumptions C03_context_propagation.
 
+(* T3b  the span of every event raised for a statement is the id of a node of that statement
+        (any switches, any environment): "the location lies inside the offending construct" *)
+Theorem C03_events_within : forall fx G R s S e,
+  In e (snd (check_stmt fx G R S s)) -> In (snd e) (ids_stmt s).
+Proof. exact events_within. Qed.
+Print Assumptions C03_events_within.
+
+(* T3c  located form for the CURRENT walker: in every context it reaches (all statement contexts,
+        elif included since the repair), each diagnostic it raises on the construct is reported
+        for the enclosing block and lies inside the construct *)
+Theorem C03_located_real : forall G R S b S' s' e,
+  reach real G R S b S' s' -> In e (snd (check_stmt real G R S' s')) ->
+  In e (check_block real G R S b) /\ In (snd e) (ids_stmt s').
+Proof.
+  intros G R S b S' s' e Hr He. split.
+  - exact (proj1 (reach_incl_all real G R) _ _ _ _ Hr e He).
+  - exact (events_within real G R s' S' e He).
+Qed.
+Print Assumptions C03_located_real.
+
 (* T4  a statement violating a documented rule, in any context the patched walker reaches, with
        a ground environment at that point, makes the patched walker report an event raised on
-       that very statement (an error, or a KGhost mark when the statement is outside Determined) *)
+       that very statement (an error, or a KGhost mark when the statement is outside Determined),
+       whose span id is a node of that statement *)
 Theorem C03_violation_located_fixed : forall G R S b S' s',
   genv_ground G -> ground R = true -> ground_env S' ->
   reach fixed G R S b S' s' ->
   (~ exists S'', stmt_ok G R S' s' S'') ->
-  exists ev, In ev (snd (check_stmt fixed G R S' s')) /\ In ev (check_block fixed G R S b).
+  exists ev, In ev (snd (check_stmt fixed G R S' s')) /\ In ev (check_block fixed G R S b) /\
+             In (snd ev) (ids_stmt s').
 Proof.
   intros G R S b S' s' HG HR Hg Hr Hv.
   assert (Hn := violation_detected G R S' s' HG HR Hg Hv).
   destruct (snd (check_stmt fixed G R S' s')) as [|ev l] eqn:E; [congruence|].
-  exists ev. split; [now left|]. apply (proj1 (reach_incl_all fixed G R) _ _ _ _ Hr).
-  unfold evs. rewrite E. now left.
+  exists ev. split; [now left|]. split.
+  - apply (proj1 (reach_incl_all fixed G R) _ _ _ _ Hr). unfold evs. rewrite E. now left.
+  - apply (events_within fixed G R s' S'). rewrite E. now left.
 Qed.
 Print Assumptions C03_violation_located_fixed.
+
+(* T5  match exhaustiveness in the walker model is a function of the SET of arm patterns: adding
+       further arms for an already handled variant (other guards / sub-patterns), or reordering
+       arms, never changes the verdict; it holds exactly when there is a wildcard arm or every
+       variant of the subject is the constructor of some arm *)
+Theorem C03_exhaustive_set_invariant : forall G t ps ps',
+  (forall p, In p ps <-> In p ps') -> exhaustive G t ps = exhaustive G t ps'.
+Proof. exact exhaustive_set. Qed.
+Print Assumptions C03_exhaustive_set_invariant.
+
+Theorem C03_exhaustive_spec : forall G t ps,
+  exhaustive G t ps = true <->
+  match required G t with
+  | None => True
+  | Some req => In PWild ps \/ forall c, In c req -> exists p, In p ps /\ In c (pat_cov t p)
+  end.
+Proof. exact exhaustive_spec. Qed.
+Print Assumptions C03_exhaustive_spec.
+
+(* M1  a walker that counts constructor arms instead of distinct variants is unsound:
+       `case Some(v): .. case Some(_): ..` (no None) passes the count and is not exhaustive *)
+Theorem C03_exhaustive_count_mutant_refuted :
+  exists t ps, exhaustive_count empty_genv t ps = true /\ exhaustive empty_genv t ps = false /\ ~ covers empty_genv t ps.
+Proof. exact exhaustive_count_refuted. Qed.
+Print Assumptions C03_exhaustive_count_mutant_refuted.
 
 (* G1, G2  regression witnesses of the two repaired classes: ill-typed, accepted before the
    repair, rejected now with the diagnostic at the offending name (inside the elif condition /
